@@ -822,27 +822,28 @@ def loopW (i : String) (body : List Stmt) : Nat → Int → Env → List (List C
     | .error e => .error e
     | .ok (env', out', clean') => loopW i body n (cur + 1) env' out' clean'
 
+/-- one top-level chunk at source level -/
+def topW (t : Top) (env : Env) (out : List (List Char)) (clean : Bool) :
+    Except (Exc × List (List Char)) (Env × List (List Char) × Bool) :=
+  match t with
+  | .stmt s => bodyW [s] env out clean
+  | .forRange i lo hi body =>
+    match evalW env lo with
+    | .error ex => .error (ex, out)
+    | .ok (va, c1) =>
+      match evalW env hi with
+      | .error ex => .error (ex, out)
+      | .ok (vb, c2) =>
+        match va, vb with
+        | .int a, .int b => loopW i body (b - a).toNat a env out (clean && c1 && c2)
+        | _, _ => .error (.typeError, out)
+
 def execTopsW : List Top → Env → List (List Char) → Bool → Outcome × Bool
   | [], _, out, clean => (⟨out.reverse, .ok⟩, clean)
   | t :: ts, env, out, clean =>
-    match t with
-    | .stmt s =>
-      match bodyW [s] env out clean with
-      | .error (ex, o) => (⟨o.reverse, .exc ex⟩, false)
-      | .ok (env', out', clean') => execTopsW ts env' out' clean'
-    | .forRange i lo hi body =>
-      match evalW env lo with
-      | .error ex => (⟨out.reverse, .exc ex⟩, false)
-      | .ok (va, c1) =>
-        match evalW env hi with
-        | .error ex => (⟨out.reverse, .exc ex⟩, false)
-        | .ok (vb, c2) =>
-          match va, vb with
-          | .int a, .int b =>
-            match loopW i body (b - a).toNat a env out (clean && c1 && c2) with
-            | .error (ex, o) => (⟨o.reverse, .exc ex⟩, false)
-            | .ok (env', out', clean') => execTopsW ts env' out' clean'
-          | _, _ => (⟨out.reverse, .exc .typeError⟩, false)
+    match topW t env out clean with
+    | .error (ex, o) => (⟨o.reverse, .exc ex⟩, false)
+    | .ok (env', out', clean') => execTopsW ts env' out' clean'
 
 def runLW (p : LProg) : Outcome × Bool := execTopsW p [] [] true
 
@@ -872,27 +873,26 @@ def loopPy (i : String) (body : List Stmt) : Nat → Int → Env → List (List 
     | .error e => .error e
     | .ok (env', out') => loopPy i body n (cur + 1) env' out'
 
+def topPy (t : Top) (env : Env) (out : List (List Char)) : Except (Exc × List (List Char)) (Env × List (List Char)) :=
+  match t with
+  | .stmt s => bodyPy [s] env out
+  | .forRange i lo hi body =>
+    match evalPy env lo with
+    | .error ex => .error (ex, out)
+    | .ok va =>
+      match evalPy env hi with
+      | .error ex => .error (ex, out)
+      | .ok vb =>
+        match va, vb with
+        | .int a, .int b => loopPy i body (b - a).toNat a env out
+        | _, _ => .error (.typeError, out)
+
 def execTopsPy : List Top → Env → List (List Char) → Outcome
   | [], _, out => ⟨out.reverse, .ok⟩
   | t :: ts, env, out =>
-    match t with
-    | .stmt s =>
-      match bodyPy [s] env out with
-      | .error (ex, o) => ⟨o.reverse, .exc ex⟩
-      | .ok (env', out') => execTopsPy ts env' out'
-    | .forRange i lo hi body =>
-      match evalPy env lo with
-      | .error ex => ⟨out.reverse, .exc ex⟩
-      | .ok va =>
-        match evalPy env hi with
-        | .error ex => ⟨out.reverse, .exc ex⟩
-        | .ok vb =>
-          match va, vb with
-          | .int a, .int b =>
-            match loopPy i body (b - a).toNat a env out with
-            | .error (ex, o) => ⟨o.reverse, .exc ex⟩
-            | .ok (env', out') => execTopsPy ts env' out'
-          | _, _ => ⟨out.reverse, .exc .typeError⟩
+    match topPy t env out with
+    | .error (ex, o) => ⟨o.reverse, .exc ex⟩
+    | .ok (env', out') => execTopsPy ts env' out'
 
 def runLPy (p : LProg) : Outcome := execTopsPy p [] []
 
